@@ -250,6 +250,34 @@ def run(ctx):
     from . import C09 as _C09
     _C09.run(ctx)
 
+    # ---- the graph handed to the Kahn sort ----------------------------------------------------------------------------------
+    ctx.rule("C07.graph", "add_event_and_auth_chain_to_graph: for every auth event of a visited event that is in the auth difference, the edge event -> auth event is "
+                          "recorded - whether or not that auth event was reached before (only the push onto the work list depends on that); no other edge is recorded")
+    fg = w.fn(SR + "add_event_and_auth_chain_to_graph")
+    try:
+        dxg = D.Dex(w.lookup, adt_discr=w.adt_discr, unroll=1, effects=lambda n: n.rsplit("::", 1)[-1] in ("insert", "extend"), inline=lambda n: False, max_paths=100000)
+        gp = [p for p in dxg.paths(fg, [D.sym("graph"), D.sym("event_id"), D.sym("auth_diff"), D.sym("fetch")]) if p.kind == "ret"]
+        badg, n_true = [], 0
+        for p in gp:
+            def _views(x):
+                while True:
+                    m_ = re.match(r"^(?:\w+::)*(?:borrow|clone|deref|as_ref|to_owned)\((.*)\)$", x)
+                    if not m_:
+                        return x.replace(" ", "")
+                    x = m_.group(1)
+            want = sorted(_views(re.match(r"^(?:\w+::)*contains\(auth_diff, (.*)\)$", D.show_atom(a)).group(1))
+                          for a, t in p.conds if t and re.match(r"^(?:\w+::)*contains\(auth_diff, ", D.show_atom(a)))
+            got = sorted(_views(U.shows(e[1])[1]) for e in p.effects if e[0].endswith("::insert") and len(e[1]) == 2 and "graph" in U.shows(e[1])[0])
+            n_true += len(want)
+            if want != got:
+                badg.append(([x[-60:] for x in want[:2]], [x[-60:] for x in got[:2]]))
+        ctx.floor("completed paths of add_event_and_auth_chain_to_graph with an auth event in the difference", n_true, 2)
+        ctx.check(not badg, "C07.graph", "C07.graph:every-edge", w.where(fg),
+                  bad_msg=f"edges recorded differ from the auth events that are in the difference (wanted vs recorded): {badg[:1]} - an edge to an auth event that was already "
+                          f"in the graph is dropped, so a power event can be sorted before the event it depends on")
+    except D.Unrecognised as e:
+        ctx.unrecognised("C07.graph", "C07.graph:every-edge", w.where(fg), str(e))
+
     # ---- set algebra -----------------------------------------------------------------------------------------------------
     ctx.rule("C07.sets", "get_auth_chain_diff keeps an id iff it is in fewer sets than there are sets; separate: unconflicted iff the (key, id) pair occurs in every state set")
     clos = [fn for fn in w.all_fns() if fn["path"].startswith(SR + "get_auth_chain_diff::{closure") and "body" in fn]
